@@ -108,7 +108,8 @@ class Check(CheckBase):
     title = "Listing and export do not depend on the container the image is wrapped in"
     rule = ("case library = AKAI length/header/structure sweeps of C01 (quick: every 4th + all boundary lengths) and Roland "
             "chains/window/header sweeps of C02 (quick: every 12th; odd cluster counts make cluster reads straddle 2048-byte "
-            "user-data boundaries) x trailing bytes {0,1,2047,2048} (zero and non-zero) x the five encodings {raw, MODE1/2352, "
+            "user-data boundaries) x trailing bytes {0,1,2047,2048} (zero and non-zero), one small image with every trailing sector count 0..127 "
+            "(thorough 0..511), truncated payloads, x the five encodings {raw, MODE1/2352, "
             "MDX, cue->raw, cue->2352} as real files: same image class, character-identical ls text at every node reachable "
             "through the printed names, identical exported trees (paths + bytes); cue dispatch: all combinations of "
             "AUDIO/MODE1/2352/MODE2/2352 modes over <=3 tracks. non-trivial = image with >=1 exported file")
@@ -132,6 +133,11 @@ class Check(CheckBase):
             for drop in (1, 2, 3):
                 spec = c01.structure_spec(nparts, 2, 3, 3, "linked", pair=True)
                 cases.append({"fmt": "akai", "spec": spec, "trailing": 0, "trail_kind": "zero", "drop_sectors": drop})
+        # every sector count in a consecutive range (one small image + t trailing 2048-byte sectors): covers every
+        # residue of the raw-sector count modulo anything up to the range length
+        small = c01.one_file_spec(300, 0, 300)
+        for t in range(0, 128 if self.quick else 512):
+            cases.append({"fmt": "akai", "spec": small, "trailing": 2048 * t, "trail_kind": "junk" if t % 2 else "zero"})
         ro = list(itertools.chain(c02.sweep_chains(self.quick), c02.sweep_window(self.quick), c02.sweep_header(self.quick)))
         ro = ro[::12] if self.quick else ro[::2]
         rcases = []
